@@ -178,6 +178,9 @@ class Snell3D(Model):
         alpha_out = alpha_in / n
         beta_out = beta_in / n
         gamma_out = np.sqrt(1.0 - alpha_out**2 - beta_out**2)
+        # alpha_out and beta_out depend on one cosine each and not on gamma_in:
+        # all outputs get the common shape of the inputs
+        alpha_out, beta_out, gamma_out, _ = np.broadcast_arrays(alpha_out, beta_out, gamma_out, gamma_in, subok=True)
         return alpha_out, beta_out, gamma_out
 
 
